@@ -332,7 +332,7 @@ func (legacyAPI) DecodePatch(b []byte) (any, error) {
 	return p, err
 }
 
-func (legacyAPI) NewOptions(o Opts) any         { return nil }
+func (legacyAPI) NewOptions(o Opts) any           { return nil }
 func (legacyAPI) OptionsSnapshot(opts any) string { return "" }
 
 func (legacyAPI) Apply(p any, fn int, doc []byte, o Opts, shared any, indent string) ([]byte, error) {
